@@ -413,6 +413,83 @@ def mutants_of(fn_node, ops, site_ok=None):
             yield desc, t
 
 
+def _names_in(node):
+    return {x.id for x in ast.walk(node) if isinstance(x, ast.Name)}
+
+
+def relevant_statements(fn):
+    """backward slice of a function's result: the statements (by id) whose evaluation can influence a returned
+    value - returns/raises, assignments to and mutating method calls on names the result depends on, and the
+    headers of compound statements that contain such statements (control dependence)."""
+    stmts = [x for x in ast.walk(fn) if isinstance(x, ast.stmt) and x is not fn]
+    rel, names = set(), set()
+
+    def base_name(t):
+        while isinstance(t, (ast.Attribute, ast.Subscript, ast.Starred)):
+            t = t.value
+        return t.id if isinstance(t, ast.Name) else None
+
+    def sub(s):
+        out = []
+        for f in ("body", "orelse", "finalbody"):
+            out += getattr(s, f, []) or []
+        for h in getattr(s, "handlers", []) or []:
+            out += h.body
+        return out
+
+    changed = True
+    while changed:
+        changed = False
+        for s in stmts:
+            if id(s) in rel:
+                continue
+            hit, use = False, set()
+            if isinstance(s, (ast.Return, ast.Raise, ast.Break, ast.Continue)):
+                hit, use = True, _names_in(s)
+            elif isinstance(s, (ast.Assign, ast.AugAssign, ast.AnnAssign)):
+                targets = s.targets if isinstance(s, ast.Assign) else [s.target]
+                tn = set()
+                for t in targets:
+                    for e in (t.elts if isinstance(t, (ast.Tuple, ast.List)) else [t]):
+                        b = base_name(e)
+                        if b:
+                            tn.add(b)
+                if tn & names:
+                    hit, use = True, _names_in(s)
+            elif isinstance(s, ast.Expr) and isinstance(s.value, ast.Call) and isinstance(s.value.func, ast.Attribute):
+                if base_name(s.value.func.value) in names:
+                    hit, use = True, _names_in(s)
+            elif isinstance(s, (ast.If, ast.While, ast.For, ast.With, ast.Try)):
+                if any(id(c) in rel for c in sub(s)):
+                    hit = True
+                    for f in ("test", "iter", "target"):
+                        if getattr(s, f, None) is not None:
+                            use |= _names_in(getattr(s, f))
+                    for it in getattr(s, "items", []) or []:
+                        use |= _names_in(it)
+            if hit:
+                rel.add(id(s))
+                if use - names:
+                    names |= use
+                changed = True
+    return rel
+
+
+def flow_relevant(n, par):
+    """is the mutation site `n` inside a statement (header) of the result's backward slice?"""
+    top = n
+    while par.get(id(top)) is not None:
+        top = par[id(top)]
+    cache = getattr(top, "_relevant", None)
+    if cache is None:
+        cache = relevant_statements(top)
+        top._relevant = cache
+    s = n
+    while s is not None and not isinstance(s, ast.stmt):
+        s = par.get(id(s))
+    return s is None or s is top or id(s) in cache
+
+
 def rename_local(fn_node, old, new):
     t = fresh(fn_node)
     for n in ast.walk(t):
@@ -528,20 +605,11 @@ def adequacy(ctx, label, func, core, mutant_ops, benign, allow_survivors=(), sit
 
 def _mutation_adequacy(ctx, repo, folder, dx, ma, dn, bb_cls, ma_cls, de, basic):
     flow_ops = sorted(dalvik.FLOW_OPS) + [0x00, 0x26, 0x2D, 0x3E, 0x12]
-    opvars = {t.id for n in ast.walk(dn.node) if isinstance(n, ast.Assign) and isinstance(n.value, ast.Call)
-              and isinstance(n.value.func, ast.Attribute) and n.value.func.attr == "get_op_value"
-              for t in n.targets if isinstance(t, ast.Name)}
-
     def dn_site(opn, n, par):
-        # comparison constants are mutated only in the opcode dispatch; other comparisons of determineNext
-        # guard the alignment warning (logging) and are equivalent under mutation
-        if opn == "const+1":
-            p = par.get(id(n))
-            while p is not None and not isinstance(p, (ast.Compare, ast.stmt)):
-                p = par.get(id(p))
-            if isinstance(p, ast.Compare):
-                return any(isinstance(x, ast.Name) and x.id in opvars for x in ast.walk(p))
-        return True
+        # only sites that can influence the returned list (or the payload lookup feeding it): statements that
+        # merely log - e.g. the alignment warning and its test - are behaviour-irrelevant for the property
+        return flow_relevant(n, par)
+
     adequacy(ctx, "determineNext", dn,
              lambda s: check_determine_next(s, repo, folder, dn, ops=flow_ops + [0x0D, 0x12, 0x2E, 0x31, 0x3F]),
              ["drop*2", "add->sub", "ret-empty", "const+1"],
